@@ -14,7 +14,7 @@ from concurrent.futures import ThreadPoolExecutor
 import vlib
 
 SLACK = 150
-SETTLE = 25
+SETTLE = 30
 
 
 def step_str(st):
@@ -68,16 +68,20 @@ def run(c):
     fmc = bg.submit(c.tlc_must_pass, "msc", "MC_Semaphore", cfg=c.pick("MC_Semaphore_quick", "MC_Semaphore_thorough"),
                     workers=c.pick(2, 6), timeout=3000)
     rnd = random.Random(c.seed)
-    plan = c.pick([("MC_SemScen_q3", None), ("MC_SemScen_q4", 1000), ("MC_SemScen_q5", 600)],
+    plan = c.pick([("MC_SemScen_q3", None), ("MC_SemScen_q4", 600), ("MC_SemScen_q5", 350)],
                   [("MC_SemScen_q4", None), ("MC_SemScen_q5", None), ("MC_SemScen_t4", 6000)])
     scen = c.path("sem_scen.ndjson")
     enumerated = {}
     nscen = 0
+
+    def enum(cfg):
+        part = c.path(cfg + ".ndjson")
+        c.tlc_must_pass("msc", "MC_SemScen", cfg=cfg, edges_out=part, workers=2, timeout=3000, count=False)
+        return open(part).readlines()
+    with ThreadPoolExecutor(max_workers=3) as ex:
+        parts = list(ex.map(enum, [cfg for cfg, _ in plan]))
     with open(scen, "w") as out:
-        for cfg, sample in plan:
-            part = c.path(cfg + ".ndjson")
-            res = c.tlc_must_pass("msc", "MC_SemScen", cfg=cfg, edges_out=part, workers=4, timeout=3000, count=False)
-            lines = open(part).readlines()
+        for (cfg, sample), lines in zip(plan, parts):
             enumerated[cfg] = len(lines)
             if sample and len(lines) > sample:
                 lines = rnd.sample(lines, sample)
@@ -95,26 +99,40 @@ def run(c):
     r = vlib.validate_scenarios(c, "msc", "SemaphoreTrace", trace, chunks=6, max_rej=6)
     c.log("trace validation: %d lines, %d scenarios, %d rejected" % (r["lines"], r["scenarios"], len(r["rejections"])))
     # second opinion for every rejected scenario: run it again alone, with a longer settle time
-    confirmed, noise = [], 0
+    confirmed, noise, per_label, not_rerun = [], 0, {}, 0
+    todo = []
     for i, rej in enumerate(r["rejections"]):
         lab = label(rej)
+        per_label[lab] = per_label.get(lab, 0) + 1
+        if per_label[lab] > 4:          # enough second opinions for this kind of rejection
+            not_rerun += 1
+            continue
+        todo.append((i, lab, rej))
+
+    def second(job):
+        i, lab, rej = job
         script = rej["scenario"][0]["script"]
         sp = c.path("sem_rerun_%d.ndjson" % i)
         tp = c.path("sem_rerun_trace_%d.ndjson" % i)
         vlib.ndjson_write(sp, [dict(script=script)])
         c.vh(["semrun", "-par", 1, "-settle", 3 * SETTLE, "-slack", SLACK, sp, tp])
         r2 = vlib.validate_scenarios(c, "msc", "SemaphoreTrace", tp, chunks=1, max_rej=1)
-        if r2["rejections"] and label(r2["rejections"][0]) == lab:
-            confirmed.append((lab, script, rej, r2["rejections"][0]))
-        else:
-            noise += 1
-            c.notes.append("rejection '%s' of script [%s] did not reproduce on the second run" % (lab, " ".join(map(step_str, script))))
+        return lab, script, rej, r2
+    with ThreadPoolExecutor(max_workers=4) as ex:
+        for lab, script, rej, r2 in ex.map(second, todo):
+            if r2["rejections"] and label(r2["rejections"][0]) == lab:
+                confirmed.append((lab, script, rej, r2["rejections"][0]))
+            else:
+                noise += 1
+                c.notes.append("rejection '%s' of script [%s] did not reproduce on the second run" % (lab, " ".join(map(step_str, script))))
     for lab, script, rej, rej2 in confirmed:
         sig = "%s/%s" % (lab, " ".join(map(step_str, script)))
         c.violation("semaphore-trace", sig,
                     "DataSemaphore trace rejected by SemaphoreTrace.tla at %s (twice); script [%s]" % (
                         json.dumps(rej["record"]), " ".join(map(step_str, script))),
                     replay=dict(first=rej, second=rej2))
+    if not_rerun:
+        c.notes.append("%d further rejected scenarios of an already confirmed kind were not run a second time" % not_rerun)
     if r.get("unvalidated_lines"):
         c.notes.append("%d trace lines left unvalidated after repeated rejections" % r["unvalidated_lines"])
     if noise > max(3, nscen // 50):
